@@ -715,9 +715,9 @@ func (g *sqlGen) renderSelect(s *GSelect) string {
 			}
 			b.WriteString(g.renderExpr(e, 1))
 		}
-		if s.Having != nil {
-			b.WriteString(sp() + g.kw("HAVING") + sp() + g.renderExpr(s.Having, 1))
-		}
+	}
+	if s.Having != nil { // also without GROUP BY: the whole result is one group
+		b.WriteString(sp() + g.kw("HAVING") + sp() + g.renderExpr(s.Having, 1))
 	}
 	if len(s.OrderBy) > 0 {
 		b.WriteString(sp() + g.kw("ORDER") + sp() + g.kw("BY") + sp())
@@ -738,9 +738,9 @@ func (g *sqlGen) renderSelect(s *GSelect) string {
 	}
 	if s.Limit >= 0 {
 		b.WriteString(sp() + g.kw("LIMIT") + sp() + fmt.Sprint(s.Limit))
-		if s.Offset >= 0 {
-			b.WriteString(sp() + g.kw("OFFSET") + sp() + fmt.Sprint(s.Offset))
-		}
+	}
+	if s.Offset >= 0 { // also without LIMIT
+		b.WriteString(sp() + g.kw("OFFSET") + sp() + fmt.Sprint(s.Offset))
 	}
 	return b.String()
 }
